@@ -2,7 +2,7 @@
 
 use proptest::prelude::*;
 
-use crate::aio::IoFault;
+use crate::aio::{IoFault, RunEnd};
 use crate::conn::{self, Built, ConnCase, ConnModel, RunResult};
 use crate::engine::*;
 use crate::model;
@@ -15,8 +15,13 @@ pub fn check_parks(b: &Built, m: &ConnModel, r: &RunResult) -> Result<usize, Fai
     let w = r.world.lock().unwrap();
     let mut checked = 0;
     let mut last = (usize::MAX, usize::MAX);
-    for &(log_len, read_pos) in &w.parks {
+    for (pi, &(log_len, read_pos)) in w.parks.iter().enumerate() {
         if (log_len, read_pos) == last {
+            continue;
+        }
+        // A read that found nothing in the very poll in which the task *finished* is not a
+        // suspension: the task did not wait (e.g. a lingering-close drain that stops at Pending).
+        if r.end == RunEnd::Finished && w.park_polls.get(pi).copied() == Some(r.steps.saturating_sub(1)) {
             continue;
         }
         last = (log_len, read_pos);
